@@ -83,8 +83,7 @@ impl<'a, F: Write + Seek> Chain<'a, F> {
     /// `new_len` bytes, allocating or freeing sectors as needed.
     pub fn set_len(&mut self, new_len: u64) -> io::Result<()> {
         let sector_len = self.allocator.sector_len() as u64;
-        let new_num_sectors =
-            ((sector_len + new_len - 1) / sector_len) as usize;
+        let new_num_sectors = new_len.div_ceil(sector_len) as usize;
         if new_num_sectors == 0 {
             if let Some(&start_sector) = self.sector_ids.first() {
                 self.allocator.free_chain(start_sector)?;
